@@ -100,6 +100,74 @@ def pack_refuses(ie: IntervalEval, pack) -> bool:
     return any(isinstance(x, Iv) and x.integral and (x.lo > 255 or x.hi < 0) for x in els)
 
 
+def exact_range_predicates(chk: Check, repo: Repo, classes) -> None:
+    """`_test_boundaries` is the declared range itself: value_min <= value <= value_max on the argument as given -
+    not on a rounded, truncated or absolute copy of it (a value just outside the range that rounds into it would be
+    accepted and, for the 16-bit float family, wrap into the sign bit).  Decided on the normalised comparison atoms of the
+    returned expression (negations pushed inwards, chains split), so equivalent spellings pass."""
+    from ..cfg import CFG
+    FLIP = {ast.Lt: ast.Gt, ast.Gt: ast.Lt, ast.LtE: ast.GtE, ast.GtE: ast.LtE}
+    NEG = {ast.Lt: ast.GtE, ast.GtE: ast.Lt, ast.Gt: ast.LtE, ast.LtE: ast.Gt}
+
+    def atoms(e: ast.AST, neg: bool) -> list | None:
+        """conjunction of (left_text, op_type, right_text); None if not a conjunction of order comparisons"""
+        if isinstance(e, ast.UnaryOp) and isinstance(e.op, ast.Not):
+            return atoms(e.operand, not neg)
+        if isinstance(e, ast.BoolOp) and isinstance(e.op, ast.And if not neg else ast.Or):
+            out = []
+            for v in e.values:
+                a = atoms(v, neg)
+                if a is None:
+                    return None
+                out += a
+            return out
+        if isinstance(e, ast.Compare) and (not neg or len(e.ops) == 1):
+            out = []
+            left = e.left
+            for op, right in zip(e.ops, e.comparators):
+                t = type(op)
+                if t not in FLIP:
+                    return None
+                if neg:
+                    t = NEG[t]
+                out.append((left, t, right))
+                left = right
+            return out
+        return None
+    seen = set()
+    for c, _m in classes:
+        tb = repo.lookup_method(c, "_test_boundaries")
+        if tb is None:
+            continue  # struct-packed families: the range is guarded in the encoder body (interval rule above)
+        if tb.ref in seen:
+            continue
+        seen.add(tb.ref)
+        chk.unit(tb)
+        cfg = CFG(tb.node)
+        par = tb.node.args.args[1].arg
+        rets = [n for n in cfg.nodes if n.kind == "stmt" and isinstance(n.ast, ast.Return) and n.ast.value is not None]
+        ok = len(rets) == 1 and not cfg.falls_off_end()
+        detail = "?"
+        if ok:
+            v = cfg.symbolic(rets[0].id, rets[0].ast.value)
+            at = atoms(v, False)
+            detail = ast.unparse(v)
+            want = set()
+            got = set()
+            if at is None:
+                ok = False
+            else:
+                for l, t, r in at:
+                    lt, rt = ast.unparse(l), ast.unparse(r)
+                    if rt == par:  # normalise: parameter on the left
+                        lt, rt, t = rt, lt, FLIP[t]
+                    got.add((lt, t.__name__, rt))
+                want = {(par, "GtE", "cls.value_min"), (par, "LtE", "cls.value_max")}
+                ok = got == want
+        chk.ob("range-guard-is-the-declared-range", tb.site(), ok, f"{tb.qualname}({par}) returns `{detail}`" + ("" if ok else f" - not exactly `cls.value_min <= {par} <= cls.value_max` on the argument as given"), key=f"range-pred|{tb.qualname}")
+    chk.floor("distinct _test_boundaries implementations", len(seen), 2)
+
+
 def run(chk: Check, repo: Repo) -> None:
     mr = engine(repo)
     classes = numeric_classes(repo)
@@ -112,6 +180,7 @@ def run(chk: Check, repo: Repo) -> None:
         tb = repo.lookup_method(c, "_test_boundaries")
         groups.setdefault(sig + (tb.qualname if tb else "",), []).append((c, m))
     chk.count("encoder signatures (body x constants)", len(groups))
+    exact_range_predicates(chk, repo, classes)
     octet_check = array_refuses_non_octets(repo)
     for sig, members in sorted(groups.items(), key=lambda kv: kv[0]):
         c, m = members[0]
